@@ -73,6 +73,21 @@ def check_region(g):
                                  % (float(x), float(y), g, got, exp),
                              input=dict(kind="point", region=g, x=float(x), y=float(y)), sig="containsPoint " + g["type"]))
             break
+    if g["type"] == "RectangularRegion" and all(float(g[k]) == int(g[k]) for k in ("x1", "y1", "x2", "y2")):
+        # the same rectangle with its numbers given as strings of different lengths (the API passes them to float());
+        # scaled by 10 and shifted so that e.g. "5" and "40" occur together
+        sg = {k: str(int(g[k]) * 35 + 5) for k in ("x1", "y1", "x2", "y2")}
+        ng = {k: int(g[k]) * 35 + 5 for k in ("x1", "y1", "x2", "y2")}
+        try:
+            a_, b_ = build(dict(sg, type=g["type"])), build(dict(ng, type=g["type"]))
+            n += 1
+            if not (a_ == b_):
+                viol.append(dict(msg="C17 rectangle given with string-typed numbers %r differs from the same rectangle "
+                                     "given with numbers %r: %r vs %r" % (sg, ng, a_, b_),
+                                 input=dict(kind="strings", region=g), sig="string-typed numbers"))
+        except Exception as e:   # noqa
+            viol.append(dict(msg="C17 rectangle given with string-typed numbers %r raised %s" % (sg, e),
+                             input=dict(kind="strings", region=g), sig="string-typed numbers"))
     if g["type"] == "RectangularRegion":
         perms = [dict(g, x1=g["x2"], x2=g["x1"]), dict(g, y1=g["y2"], y2=g["y1"]),
                  dict(g, x1=g["x2"], x2=g["x1"], y1=g["y2"], y2=g["y1"])]
